@@ -37,8 +37,14 @@ def run(ck, tier, seed):
             if n in (7, 500, 1200):
                 ck.sample({"module": "Cmap", "segs": c["segs"], "groups": c["groups"], "records": [bmp, smp], "losing_records": list(decoys)})
     host = os.path.join(vlib.REPO, "tests/fonts/Padauk.ttf")
+    # a host font whose single rule changes nothing: the glyphs of a shaped text are those the cmap gave its characters
+    from fontgen import gfont, gdl
+    keep = dict(op="keep", cls=0, ref=0, adv=-1, user=-1, user2=-1, shift=-1, att=-1, attref=-1, sf=0, sv=0)
+    prog = [{"kind": "sub", "rules": [{"pre": 0, "ctx": [1], "items": [keep], "con": {"kind": "none", "item": 0, "val": 0, "f": 0}, "ret": 0}]}]
+    texthost = os.path.join(tmp, "texthost.ttf")
+    open(texthost, "wb").write(gfont.build_font(gdl.font_model(prog, [[1]], [0, 500, 500, 500], [0, 0, 0, 0], 0)))
     exe = vlib.build_harness("san")
-    h = vlib.run_harness(exe, ["cmap", cases, host, 4099 if tier == "quick" else 257], timeout=6000)
+    h = vlib.run_harness(exe, ["cmap", cases, host, 4099 if tier == "quick" else 257, texthost], timeout=6000)
     vlib.absorb(ck, h)
     ck.extra["impl"] = {}
     if h.summary:
